@@ -123,6 +123,10 @@ def cut(e, parts, pre=()):
                 ob._forged = None
                 if ffecc.os.environ.get("FECC_DEBUG"):
                     print("   fecc forged-assignment search failed:", repr(ex))
+    if ob is not None and getattr(ob, "_forged", None):
+        # a replayed forged assignment is in hand: let decide() stop at once (its vacuity twin fails on "false",
+        # which it reports as INCONCLUSIVE; check() below turns the obligation into the VIOLATION with the replay)
+        return "false"
     return AND(*[f for _, f in parts])
 
 
@@ -358,6 +362,9 @@ def check(run):
             path = run.write_replay(ob, dict(kind="forged-assignment", cx=fg["cx"], overrides=fg["overrides"], instance=fg["instance"],
                                              note=f"real MockProver::verify() accepts this assignment (honest run with the listed cells overridden) although the instance violates the part '{fg['part']}' of the operation's specification"))
             ob.set(core.VIOLATION, f"{ob.id}: the real MockProver accepts a forged assignment whose instance {fg['instance']} violates the specification (part '{fg['part']}')", replay=path)
+            continue
+        if getattr(ob, "_chain_fail", None) and ob.status == core.INCONCLUSIVE and "chain failed" not in ob.detail:
+            ob.set(core.INCONCLUSIVE, "foreign-field chain failed: " + ob._chain_fail + " (and no forged assignment was found); " + ob.detail[:200])
             continue
         if getattr(ob, "_no_lambda", None) and ob.status in (core.INCONCLUSIVE, core.VIOLATION) and "honest" not in (ob.key or ""):
             ob.set(core.INCONCLUSIVE, ob._no_lambda + "; " + ob.detail[:300])
